@@ -85,6 +85,32 @@ def raise_sites(repo, fi: FuncInfo, depth: int = 0) -> Dict[str, List[str]]:
 
     split_vars = {s.targets[0].id for s in ast.walk(fi.node) if isinstance(s, ast.Assign) and isinstance(s.targets[0], ast.Name) and isinstance(s.value, ast.Call) and astq.callee_name(s.value) == "split"}
     enums = enum_names(repo, fi.module.name)
+
+    def member_guarded(n: ast.AST, enum: str, arg: ast.AST, by_value: bool) -> bool:
+        """The lookup is dominated by a test that `arg` is a member name (`arg in E.__members__` holds / `arg not in E.__members__`
+        left the function), the tested name is not rebound between the test and the lookup, and - for a lookup by value - every
+        member's value is its name (read from the class)."""
+        if not isinstance(arg, ast.Name):
+            return False
+        if by_value:
+            try:
+                from sa.world import enum_stub
+
+                hm, hn = repo.const_home(fi.module.name, enum)
+                if any(m.value != m.name for m in enum_stub(repo, hm, hn)):
+                    return False
+            except Exception:
+                return False
+        st = fm.stmt_of(n)
+        for g in facts(fm.expr_guards(st, n) or ()):
+            t = g.test
+            if isinstance(t, ast.Compare) and len(t.ops) == 1 and isinstance(t.left, ast.Name) and t.left.id == arg.id and ast.unparse(t.comparators[0]) == f"{enum}.__members__":
+                holds = (isinstance(t.ops[0], ast.In) and g.polarity) or (isinstance(t.ops[0], ast.NotIn) and not g.polarity)
+                rebound = any(isinstance(x, ast.Name) and x.id == arg.id and isinstance(x.ctx, ast.Store) and getattr(t, "lineno", 0) < getattr(x, "lineno", 0) <= getattr(n, "lineno", 0) for x in ast.walk(fi.node))
+                if holds and not rebound:
+                    return True
+        return False
+
     for n in astq.walk_no_nested(fi.node):
         exc = why = None
         if isinstance(n, ast.Call) and isinstance(n.func, ast.Name) and n.func.id in ("int", "float") and n.args and not isinstance(n.args[0], ast.Constant):
@@ -100,9 +126,11 @@ def raise_sites(repo, fi: FuncInfo, depth: int = 0) -> Dict[str, List[str]]:
             if not guarded and k != 0 and k != -1:  # str.split always yields at least one element
                 exc, why = "IndexError", WHY_RAISES["split-index"]
         elif isinstance(n, ast.Subscript) and isinstance(n.value, ast.Name) and n.value.id in enums and isinstance(n.ctx, ast.Load):
-            exc, why = "KeyError", WHY_RAISES["enum-name"]
+            if not member_guarded(n, n.value.id, n.slice, False):
+                exc, why = "KeyError", WHY_RAISES["enum-name"]
         elif isinstance(n, ast.Call) and isinstance(n.func, ast.Name) and n.func.id in enums:
-            exc, why = "ValueError", WHY_RAISES["enum-value"]
+            if not (len(n.args) == 1 and not n.keywords and member_guarded(n, n.func.id, n.args[0], True)):
+                exc, why = "ValueError", WHY_RAISES["enum-value"]
         elif isinstance(n, ast.Raise):
             exc = ast.unparse(n.exc.func).split(".")[-1] if isinstance(n.exc, ast.Call) else (ast.unparse(n.exc) if n.exc is not None else "reraise")
             why = WHY_RAISES["raise"]
